@@ -1417,8 +1417,13 @@ def lazy_iter_model(it, st, cands, args):
             return m_lazy_next
         if name in ('any', 'all') and 'Iterator' in trait:
             return m_lazy_any_all(name)
+        if name == 'find' and 'Iterator' in trait and _lazy_all_items(it, st, a0) is not None:
+            return m_lazy_find
         if name == 'into_iter':
             return lambda it_, st_, fr_, t_, args_, ga_: args_[0]
+    if name == 'find' and 'Iterator' in trait and isinstance(a0, I.ContV) and len(args) == 2 and isinstance(args[1], I.ClosureV) \
+            and _lazy_all_items(it, st, a0) is not None:
+        return m_lazy_find
     if name in ('into_iter', 'iter') and isinstance(a0, I.ArrV) and a0.items is not None:
         # [a, b, c].into_iter() / .iter(): the array itself stands for its element sequence
         return lambda it_, st_, fr_, t_, args_, ga_: I.LazyIterV('same' if name == 'into_iter' else 'refs', a0)
@@ -1749,11 +1754,18 @@ def _lazy_all_items(it, st, v, depth=0):
         return None
     if isinstance(v, I.ArrV) and v.items is not None and len(v.items) <= 8:
         return list(v.items)
+    if isinstance(v, I.ContV) and v.kind == 'slice_iter' and isinstance((v.extra or {}).get('items'), list) and len(v.extra['items']) <= 8 \
+            and not v.extra.get('havocked') and not v.extra.get('pos'):
+        # `TABLE.iter()` over a literal / constant array: references to its elements, in order
+        return [I.RefV(st.new_cell(copy.deepcopy(x))) for x in v.extra['items']]
     if isinstance(v, I.EnumV) and v.path.endswith('::Option') and v.variant is not None:
         return [v.payload[1][0]] if v.variant == 1 else []
     if isinstance(v, I.LazyIterV):
         if v.kind == 'same':
             return _lazy_all_items(it, st, v.inner, depth + 1)
+        if v.kind == 'refs':
+            a = _lazy_all_items(it, st, v.inner, depth + 1)
+            return None if a is None else [I.RefV(st.new_cell(copy.deepcopy(x))) for x in a]
         if v.kind == 'chain':
             a, b = _lazy_all_items(it, st, v.inner, depth + 1), _lazy_all_items(it, st, v.other, depth + 1)
             return None if a is None or b is None else a + b
@@ -1761,6 +1773,37 @@ def _lazy_all_items(it, st, v, depth=0):
             a = _lazy_all_items(it, st, v.inner, depth + 1)
             return None if a is None else [it.call_closure(st, v.clo, [copy.deepcopy(x)]) for x in a]
     return None
+
+
+def m_lazy_find(it, st, fr, t, args, ga):
+    """Iterator::find over an explicit short sequence (a constant table, `[a, b, c].iter()`): the first item the predicate
+    accepts, following every branch of the predicate"""
+    v = it.deref(st, args[0]) if isinstance(args[0], I.RefV) else args[0]
+    items = _lazy_all_items(it, st, v)
+    clo = args[1]
+    if items is None or not isinstance(clo, I.ClosureV):
+        raise I.InterpError('find over %r is not modelled' % (v,))
+    done, states = [], [st.fork()]
+    for x in items:
+        nxt = []
+        for s_ in states:
+            arg = I.RefV(s_.new_cell(copy.deepcopy(x)))
+            for s2, r in closure_results(it, s_, clo, [arg]):
+                if not isinstance(r, I.BoolV):
+                    raise I.InterpError('find predicate is not boolean')
+                d = s2.ctx.decide(r.b)
+                if d is True:
+                    done.append((s2, some(copy.deepcopy(x))))
+                elif d is False:
+                    nxt.append(s2)
+                else:
+                    s3 = s2.fork()
+                    if s3.ctx.assume(r.b) is not False:
+                        done.append((s3, some(copy.deepcopy(x))))
+                    if s2.ctx.assume(bnot(r.b)) is not False:
+                        nxt.append(s2)
+        states = nxt
+    return ('states', done + [(s_, none()) for s_ in states])
 
 
 def m_lazy_any_all(kind):
